@@ -361,7 +361,7 @@ func (e *Eval) havocFrame(k *Contract, env *Env, post, pre *State) {
 			}
 			post.ghostWild = append(post.ghostWild, m[:len(m)-1])
 		case strings.HasPrefix(m, "$"):
-			c.DeclComp(m, c.compSortOr(m, "Int"))
+			e.declGhost(m)
 			c.Havoc(post, m)
 		case strings.HasPrefix(m, "elems(") && strings.HasSuffix(m, ")"):
 			inner := m[6 : len(m)-1]
@@ -727,6 +727,36 @@ func (e *Eval) applyGhost(k *Contract, env *Env, post, pre *State, cur, site str
 			e.ghostCount(post, f[1])
 			continue
 		}
+		// own <file expr> = <int expr>    ownership state of a File
+		if len(f) >= 4 && f[0] == "own" {
+			rest := strings.TrimSpace(g[3:])
+			eqi := strings.Index(rest, " = ")
+			fx, err1 := ParseSpecExpr(strings.TrimSpace(rest[:eqi]))
+			vx, err2 := ParseSpecExpr(strings.TrimSpace(rest[eqi+3:]))
+			if err1 == nil && err2 == nil {
+				env.st = post
+				e.declOwn()
+				fv := env.eval(fx)
+				vv := env.eval(vx)
+				if vv.Ty == nil {
+					vv = env.coerce(vv, ghostIntType)
+				}
+				e.c.Set(post, "$own", sto(e.c.Get(post, "$own"), fv.T, vv.T))
+				continue
+			}
+		}
+		// owed <ref expr> += <int>         references held by the invocation
+		if len(f) == 4 && f[0] == "owed" && f[2] == "+=" {
+			rx, err := ParseSpecExpr(f[1])
+			if err == nil {
+				env.st = post
+				e.declOwed()
+				rv := env.eval(rx)
+				o := e.c.Get(post, "$owed")
+				e.c.Set(post, "$owed", ite(eq(rv.T, "0"), o, sto(o, rv.T, "(+ "+sel(o, rv.T)+" "+f[3]+")")))
+				continue
+			}
+		}
 		// set $name:type = expr   (expr over the post state and the results)
 		if len(f) >= 4 && f[0] == "set" {
 			rest := strings.TrimSpace(g[3:])
@@ -749,5 +779,19 @@ func (e *Eval) applyGhost(k *Contract, env *Env, post, pre *State, cur, site str
 			}
 		}
 		e.c.Unsupported("ghost directive %q", g)
+	}
+}
+
+// declGhost declares a ghost component named in a modifies clause.
+func (e *Eval) declGhost(name string) {
+	switch name {
+	case "$owed":
+		e.declOwed()
+	case "$own":
+		e.declOwn()
+	case "$held":
+		e.declHeld()
+	default:
+		e.c.DeclComp(name, e.c.compSortOr(name, "Int"))
 	}
 }
